@@ -16,6 +16,7 @@ package routing
 //@   at call dyn:FunctionParser#1 assert jMatchSet == len(keyOrder) - 1 && iFunc < len(rule.AndFunctions) - 1 ==> overrideOutbound.Name == consts.OutboundLogicalAnd.String()
 //@   at call dyn:FunctionParser#1 assert jMatchSet == len(keyOrder) - 1 && iFunc == len(rule.AndFunctions) - 1 ==> overrideOutbound.Name == outbound.Name
 //@   at call dyn:FunctionParser#1 assert a1 == f && a2 == key && a3 == paramValueGroups[key]
+//@   at call groupParamValuesByKey#1 assert len(f.Params) > 0
 //@   ensures err == nil ==> calls("loop#1") == 1
 
 // The outbound of a rule: mark is the parsed 32-bit value of the `mark` parameter, must is set exactly by
@@ -98,3 +99,13 @@ package routing
 //@   nonilcheck
 //@   dyncalls noeffect
 //@   modifies *
+
+// a condition with at least one parameter has at least one key group, so Apply lowers it to at least one
+// match set (a condition without parameters would silently vanish from the rule: Apply must refuse it)
+//@ func groupParamValuesByKey
+//@   nonilcheck
+//@   modifies *
+//@   ensures len(params) > 0 ==> len(keyOrder) > 0
+//@   loop 1
+//@     invariant $idx > 0 ==> len(keyOrder) > 0
+//@     invariant $idx == 0 ==> len(groups) == 0
